@@ -236,9 +236,49 @@ def one_case(ctx, spec, meta, plan, config, pre, reload_fmt, rounds, rng=None):
                     'evaluated_before_trim': pre, 'reload': reload_fmt, 'rounds': done[:2]})
 
 
+def iterative_trim(ctx):
+    """directed: iterative calculation on; a contracting circular block that does not depend on the input
+    feeds the output.  Frozen at trim time it must hold its converged value (within the tolerance)."""
+    for k, (a, b, c) in enumerate(((5, 0.25, 0.5), (1, 0.5, 0.5), (-3, 0.2, -0.7), (10, 0.1, 0.9))):
+        x1 = a / (1 - b * c)            # B1 = a + b*B2, B2 = c*B1
+        for reload_fmt in (None, 'yml', 'json', 'pkl'):
+            spec = {'sheets': [['Sheet1', {'A1': 2, 'C1': '=A1*Rates!B1', 'D1': '=C1+Rates!B2'}],
+                               ['Rates', {'B1': f'={a}+{b}*B2', 'B2': f'={c}*B1'}]],
+                    'names': {}, 'arrays': [], 'calc': {'iterate': True, 'count': 200, 'delta': 1e-9}}
+            case = {'kind': 'iterative-trim', 'k': k, 'reload': reload_fmt}
+            T = wb.compile_mem(spec)
+            try:
+                T.trim_graph(['Sheet1!A1'], ['Sheet1!C1', 'Sheet1!D1'])
+                if reload_fmt:
+                    T = hist.reload(T, reload_fmt, ctx.tmpdir, 'it')
+            except Exception as exc:
+                if not wb.raised_outside_harness(exc):
+                    raise
+                ctx.violation('iterative/trim-or-reload-raises', f'{wb.describe(exc)}', case)
+                continue
+            ctx.count('trims')
+            ctx.count('directed:iterative_trim')
+            ctx.case(('iterative-trim', k, reload_fmt))
+            for v in (2, 7, -1.5, 0):
+                T.set_value('Sheet1!A1', v)
+                got_c, got_d = wb.outcome(T.evaluate, 'Sheet1!C1'), wb.outcome(T.evaluate, 'Sheet1!D1')
+                ctx.count('output_compares', 2)
+                want_c, want_d = v * x1, v * x1 + c * x1
+                ok = all(o[0] == 'v' and isinstance(o[1], (int, float)) and abs(o[1] - w_) <= 1e-6 * max(1, abs(w_))
+                         for o, w_ in ((got_c, want_c), (got_d, want_d)))
+                if not ok:
+                    ctx.violation('iterative/frozen-circular-block-not-converged',
+                                  f'A1={v}: trimmed model gives C1={got_c!r}, D1={got_d!r}; the circular block '
+                                  f'Rates!B1={a}+{b}*B2, B2={c}*B1 converges to B1={x1!r}, so C1={want_c!r}, '
+                                  f'D1={want_d!r} [reload={reload_fmt}]', case)
+                    break
+
+
 def run(ctx):
     rng = ctx.rng
     i = 0
+    if ctx.shard == 0:
+        iterative_trim(ctx)
     while not ctx.out_of_time():
         i += 1
         spec, meta = wbgen.dag(rng, arrays=False, formula_ratio=0.65)
@@ -252,5 +292,8 @@ def run(ctx):
 
 
 def replay(ctx, case):
+    if case.get('kind') == 'iterative-trim':
+        iterative_trim(ctx)
+        return
     one_case(ctx, case['spec'], case['meta'], case['plan'], case['config'], case['pre'], case['reload'],
              case['rounds'] or [])
